@@ -10,7 +10,7 @@ FEATURES = ["area_um", "deform", "aspect", "bright_avg", "bright_sd", "fl1_max",
 COL_SHAPES = ["lognormal", "uniform", "normal0", "negative", "ties_int", "ties_int_neg",
               "ties_round", "constant", "two_values", "wide", "large_scale", "small_scale",
               "bimodal", "ramp"]
-COL_P = np.array([16, 12, 10, 6, 9, 5, 8, 4, 4, 5, 4, 4, 8, 5], dtype=float)
+COL_P = np.array([17, 13, 10, 6, 9, 5, 8, 2, 3, 5, 4, 4, 9, 5], dtype=float)
 COL_P /= COL_P.sum()
 
 KDE_TYPES = ["histogram", "gauss", "multivariate", "none"]
@@ -21,7 +21,7 @@ POISONS = ["nan", "inf", "-inf", "1e300", "-1e300", "mixed", "inrange", "zero", 
 
 def gen_n(rng, big):
     r = rng.random()
-    if r < 0.12:
+    if r < 0.08:
         return int(rng.integers(1, 6))                # tiny: 1..5
     if r < 0.37:
         return int(rng.integers(6, 41))
@@ -77,7 +77,7 @@ def contaminate(rng, v):
     r = rng.random()
     kind = "clean"
     bad = np.array([np.nan, np.inf, -np.inf])
-    if r < 0.55 or n == 0:
+    if r < 0.58 or n == 0:
         return v, kind
     if r < 0.78:
         k = int(rng.integers(1, min(3, n) + 1))
@@ -88,14 +88,14 @@ def contaminate(rng, v):
         m = rng.random(n) < rng.uniform(0.1, 0.4)
         v[m] = rng.choice(bad, int(m.sum()), p=[0.7, 0.2, 0.1])
         kind = "fraction"
-    elif r < 0.94:
+    elif r < 0.95:
         k = int(rng.integers(1, max(2, n // 3 + 1)))
         if rng.random() < 0.5:
             v[:k] = np.nan
         else:
             v[-k:] = np.nan
         kind = "prefix/suffix"
-    elif r < 0.97:
+    elif r < 0.975:
         v[:] = rng.choice(bad)
         kind = "everywhere"
     else:
@@ -172,7 +172,8 @@ def gen_recipe(rng, feats, cols, n):
             fv = _finite(cols[str(f)])
             if fv.size < 2:
                 continue
-            lo, hi = np.quantile(fv, sorted(rng.uniform(0, 1, 2)))
+            qa = rng.uniform(0, 0.6)
+            lo, hi = np.quantile(fv, [qa, min(1.0, qa + rng.uniform(0.25, 1.0))])
             if lo == hi:
                 continue
             rec["box"].append([str(f), float(lo), float(hi)])
@@ -183,7 +184,7 @@ def gen_recipe(rng, feats, cols, n):
                 and np.isfinite(np.ptp(vx)) and np.isfinite(np.ptp(vy)):
             k = int(rng.integers(3, 7))
             ang = np.sort(rng.uniform(0, 2 * np.pi, k))
-            rad = rng.uniform(0.2, 0.9, k)
+            rad = rng.uniform(0.5, 1.2, k)
             cx, cy = np.median(vx), np.median(vy)
             px = cx + rad * np.cos(ang) * np.ptp(vx) * 0.5
             py = cy + rad * np.sin(ang) * np.ptp(vy) * 0.5
